@@ -1205,7 +1205,7 @@ func (ro *RedisOutput) bisyncPipelineWorkerCount(ctx context.Context) int {
 
 // sendBisyncParallel 负责以“同 slot 串行、跨 slot 并行”的方式回放 bisync unit，
 // 并在提交完成后统一推进 frontier，兼顾回放吞吐和 checkpoint 连续性。
-func (ro *RedisOutput) sendBisyncParallel(replayWait usync.WaitCloser, runID string, unitBuf chan *bisyncReplayUnit) error {
+func (ro *RedisOutput) sendBisyncParallel(replayWait usync.WaitCloser, runID string, unitBuf chan *bisyncReplayUnit) (retErr error) {
 	// `parallel` 模式把“按 slot 派发事务”和“统一推进 frontier”拆开：
 	// 1. 同一个 slot 哈希到固定 lane 串行提交，避免为每个 slot 常驻一个 worker，
 	//    也避免 standalone 模式下并发 Receive 同一个连接；
@@ -1379,6 +1379,16 @@ func (ro *RedisOutput) sendBisyncParallel(replayWait usync.WaitCloser, runID str
 		}
 		return replayWait.Error()
 	}
+	// Whatever makes this loop return, no lane may still commit a unit afterwards: the caller starts
+	// again in the same process (StartPoint reads and cleans the commit journal, the next loop re-sends
+	// from there), and a unit transaction of THIS loop reaching the target after that would be applied
+	// after newer writes of the same keys. Closing the run first releases workers waiting to hand over
+	// a result; a worker inside a unit finishes it (or fails on its connection) before it exits.
+	defer func() {
+		replayWait.Close(retErr)
+		closeWorkers()
+		workerWG.Wait()
+	}()
 	frontierTicker := time.NewTicker(bisyncFrontierFlushInterval)
 	defer frontierTicker.Stop()
 
